@@ -90,5 +90,5 @@ R.contract(f'{LS}.find_keys', self_type='Obj[LocalStorage]', params={}, returns=
     raises={'OSError': []}, frame=['@FS_ROOT_READS'])
 R.contract(f'{LS}.__init__', self_type='Obj[LocalStorage]', params={'storage_dir': 'Path', 'with_gitignore': 'Bool'}, defaults={'with_gitignore': True},
     ensures=['INV(self)'], raises={'OSError': [], 'FileExistsError': [], 'FileNotFoundError': []},
-    frame=['self._storage_path', '@FS_DIR_OPS', '@FS_FILE_OPS'],
+    frame=['self._storage_path', '@FS_DIR_OPS', '@FS_FILE_OPS', '@FGOOD', '@FBAD', 'Handle.pending'],
     note='touches only the root directory itself and root/.gitignore (inside the storage directory)')
